@@ -37,6 +37,11 @@ func (w *World) execSide(r *Replica, ri int, s *Side, point string) {
 			p := w.curPlans[s.BlockTx-1]
 			forged = p.Tampered
 			txb = p.Bytes
+			if s.Twin && p.Genuine != nil {
+				forged = false
+				txb = p.Genuine
+				w.Probes.Hit("side.check.genuine-twin")
+			}
 			if p.Tx != nil {
 				kind = kindName(p.Tx.Type)
 			}
